@@ -1,17 +1,19 @@
-(* C05/Classes.v — the known-deviation classes of C05 (and of the GVariant halves of C02/C04) as decidable predicates
-   on a value.  Each class is a place where zvariant's GVariant serializer departs from the GVariant specification
-   (C05/Spec.v); C05_partial is stated for values in none of them.
+(* C05/Classes.v — the known-deviation classes of C05 (and of the GVariant half of C02) as decidable predicates on a
+   value.  Each class is a place where zvariant's GVariant serializer departs from the GVariant specification
+   (C05/Spec.v); C05_partial is stated for values none of whose nodes (including the payloads of variants) is in a class.
 
-   bool            the value's type (or the type of a value inside a variant) mentions `b`:
-                   zvariant writes a boolean as a 4-byte, 4-aligned integer (D-Bus delegation), the format says 1 byte
-   tail_padding    ... mentions a fixed-size tuple or dict entry whose members do not fill a multiple of its
-                   alignment, e.g. (uy), a(uy), a{uy}, ((uy)y): the format pads such a tuple at its end, zvariant does not
-   empty_offsets   an array of n >= 1 variable-size elements that are all empty ([[], []] : aas, [Nothing] : ams), or a
-                   tuple with >= 2 variable-size members whose members are all empty (([], []) : (asas)):
-                   zvariant writes nothing at all ("Empty sequence"), the format requires the framing offsets (all 0)
-   dict_key_width  a dict entry with a variable-size key whose key+value take n bytes with n + w > 2^(8w) - 1 for the
-                   width w chosen from n alone (n = 255, 65534, 65535, 2^32-4 ...): zvariant sizes the key's framing
-                   offset with for_encoded_container(n) instead of for_bare_container(n, 1)                         *)
+   bool            the type of the node mentions `b` (e.g. b, ab, (yb), mb, a{sb}):
+                   zvariant writes a boolean as a 4-byte, 4-aligned integer (D-Bus delegation); the format says 1 byte
+   tail_padding    the node is a fixed-size tuple, or a dict with a fixed-size entry type, whose members do not fill a
+                   multiple of its alignment — (uy), a{uy}, ((uy)y): the format pads such a tuple at its end,
+                   zvariant does not (so a(uy) is 13 bytes instead of 16, ...)
+   empty_offsets   the node is an array (or dict) of n >= 1 variable-size elements that all encode to nothing
+                   ([[], []] : aas, [Nothing] : ams), or a tuple with framing offsets whose members all encode to nothing
+                   (([], []) : (asas)): zvariant writes nothing at all ("Empty sequence"), the format requires the
+                   framing offsets (all 0)
+   dict_key_width  the node is a dict with a variable-size key type and an entry whose key+value take n bytes where
+                   for_encoded_container(n) differs from the width the format prescribes for n data bytes plus ONE
+                   offset (n = 255, 65534, 65535, 2^32-4 ...): zvariant sizes the key's framing offset from n alone     *)
 From ZV Require Import Base.Bytes Base.Res Base.Sig Base.SigParse DBus.Val DBus.Spec DBus.Ser C05.Val C05.Spec C05.Model.
 Local Open Scope N_scope.
 
@@ -25,89 +27,84 @@ Fixpoint has_bool (s : sig) : bool :=
   | _ => false
   end.
 
-(* the end of the last member of a fixed-size tuple, before the final padding *)
-Fixpoint unpadded_end (l : list sig) (off : N) : option N :=
-  match l with
-  | [] => Some off
-  | f :: r => match gfixed_size f with Some n => unpadded_end r (align_up off (galign f) + n) | None => None end
-  end.
-Definition tuple_tail (l : list sig) : bool :=
-  match l, unpadded_end l 0 with
-  | _ :: _, Some n => negb (padn n (galigns l) =? 0)
-  | _, _ => false
-  end.
-Fixpoint has_tail (s : sig) : bool :=
-  match s with
-  | SArray c | SMaybe c => has_tail c
-  | SDict k v => has_tail k || has_tail v || tuple_tail [k; v]
-  | SStruct fs => tuple_tail fs
-                  || (fix go (l : list sig) : bool := match l with [] => false | f :: r => has_tail f || go r end) fs
-  | _ => false
-  end.
-
-(* ---- on values ---- *)
-(* values whose encoding is the empty byte string *)
-Fixpoint is_empty_val (v : gval) : bool :=
+(* every node of the value, including the payload of variants *)
+Fixpoint all_nodes (p : gval -> bool) (v : gval) {struct v} : bool :=
+  p v &&
   match v with
-  | GArray _ [] | GDict _ _ [] | GMaybe _ None => true
-  | GStruct l => (fix go (l : list gval) : bool := match l with [] => true | x :: r => is_empty_val x && go r end) l
-  | _ => false
-  end.
-Definition var_count (l : list sig) : nat := length (filter (fun s => negb (gis_fixed s)) l).
-
-Definition entry_size_bad (n : N) : bool :=
-  match for_encoded_container n with
-  | Ok w => negb (w =? offset_width n 1)
+  | GVariant x => all_nodes p x
+  | GMaybe _ (Some x) => all_nodes p x
+  | GArray _ l | GStruct l => (fix go (l : list gval) : bool := match l with [] => true | x :: r => all_nodes p x && go r end) l
+  | GDict _ _ l => (fix go (l : list (gval * gval)) : bool :=
+                      match l with [] => true | (k, x) :: r => all_nodes p k && all_nodes p x && go r end) l
   | _ => true
   end.
 
+(* the padded encodings of the members of a container, as the specification lays them out *)
 Section K.
   Variable e : endian.
-  (* does a node of the value (including the payload of variants) fall into the class? *)
-  Fixpoint any_node (p : gval -> bool) (v : gval) {struct v} : bool :=
-    p v ||
-    match v with
-    | GVariant x => any_node p x
-    | GMaybe _ (Some x) => any_node p x
-    | GArray _ l | GStruct l => (fix go (l : list gval) : bool := match l with [] => false | x :: r => any_node p x || go r end) l
-    | GDict _ _ l => (fix go (l : list (gval * gval)) : bool :=
-                        match l with [] => false | (k, x) :: r => any_node p k || any_node p x || go r end) l
-    | _ => false
+
+  Fixpoint gparts (l : list gval) (off : N) : list bytes :=
+    match l with
+    | [] => []
+    | x :: r => let b := pad off (galign (gsig x)) ++ gvb e x in b :: gparts r (off + len b)
+    end.
+  (* key and value of one dict entry *)
+  Definition entry_parts (vs : sig) (p : gval * gval) : list bytes :=
+    let kb := gvb e (fst p) in [kb; pad (len kb) (galign vs) ++ gvb e (snd p)].
+
+  Fixpoint geparts (ks vs : sig) (l : list (gval * gval)) (off : N) : list bytes :=
+    match l with
+    | [] => []
+    | p :: r =>
+        let al := N.max (galign ks) (galign vs) in
+        let b := pad off al ++ tuple_bytes al [ks; vs] (entry_parts vs p) in
+        b :: geparts ks vs r (off + len b)
+    end.
+
+  Definition entry_size_bad (n : N) : bool :=
+    match for_encoded_container n with
+    | Ok w => negb (w =? offset_width n 1)
+    | _ => true
     end.
 
   Definition node_bool (v : gval) : bool := has_bool (gsig v).
-  Definition node_tail (v : gval) : bool := has_tail (gsig v).
+  Definition node_tail (v : gval) : bool :=
+    match v with
+    | GStruct l => forallb gis_fixed (map gsig l)
+                   && negb (padn (len (concat (gparts l 0))) (galigns (map gsig l)) =? 0)
+    | GDict ks vs l => gis_fixed ks && gis_fixed vs
+                       && existsb (fun p => negb (padn (len (concat (entry_parts vs p))) (N.max (galign ks) (galign vs)) =? 0)) l
+    | _ => false
+    end.
   Definition node_empty_offsets (v : gval) : bool :=
     match v with
-    | GArray el (x :: r) => negb (gis_fixed el) && forallb is_empty_val (x :: r)
-    | GStruct l => forallb is_empty_val l && (2 <=? var_count (map gsig l))%nat
+    | GArray el (x :: r) => negb (gis_fixed el) && (len (concat (gparts (x :: r) 0)) =? 0)
+    | GDict ks vs (p :: r) => negb (gis_fixed ks && gis_fixed vs) && (len (concat (geparts ks vs (p :: r) 0)) =? 0)
+    | GStruct l => negb (forallb gis_fixed (map gsig l)) && (len (concat (gparts l 0)) =? 0)
+                   && negb (Nat.eqb (length (tuple_offsets (map gsig l) (ends_from 0 (gparts l 0)))) 0)
     | _ => false
     end.
   Definition node_dict_key (v : gval) : bool :=
     match v with
-    | GDict ks vs l =>
-        negb (gis_fixed ks)
-        && existsb (fun p => let kb := gvb e (fst p) in
-                             entry_size_bad (len kb + len (pad (len kb) (galign vs) ++ gvb e (snd p)))) l
+    | GDict ks vs l => negb (gis_fixed ks) && existsb (fun p => entry_size_bad (len (concat (entry_parts vs p)))) l
     | _ => false
     end.
 
-  Definition in_bool := any_node node_bool.
-  Definition in_tail := any_node node_tail.
-  Definition in_empty_offsets := any_node node_empty_offsets.
-  Definition in_dict_key := any_node node_dict_key.
+  Definition node_known (v : gval) : bool := node_bool v || node_tail v || node_empty_offsets v || node_dict_key v.
 
-  Definition known_c05 (v : gval) : bool := in_bool v || in_tail v || in_empty_offsets v || in_dict_key v.
+  (* Known_C05 *)
+  Definition known_c05 (v : gval) : bool := negb (all_nodes (fun x => negb (node_known x)) v).
 
+  Definition in_class (p : gval -> bool) (v : gval) : bool := negb (all_nodes (fun x => negb (p x)) v).
   Definition class_c05 (v : gval) : bytes :=
-    if in_bool v then B "bool"
-    else if in_tail v then B "tail_padding"
-    else if in_empty_offsets v then B "empty_offsets"
-    else if in_dict_key v then B "dict_key_width"
+    if in_class node_bool v then B "bool"
+    else if in_class node_tail v then B "tail_padding"
+    else if in_class node_empty_offsets v then B "empty_offsets"
+    else if in_class node_dict_key v then B "dict_key_width"
     else B "-".
   (* the classes in which encode-then-decode does not return the value (C02, GVariant half) *)
   Definition class_c02 (v : gval) : bytes :=
-    if in_empty_offsets v then B "empty_offsets"
-    else if in_dict_key v then B "dict_key_width"
+    if in_class node_empty_offsets v then B "empty_offsets"
+    else if in_class node_dict_key v then B "dict_key_width"
     else B "-".
 End K.
